@@ -125,6 +125,8 @@ func lcStmt(b string) string {
 		return "return(restart);"
 	case "expire":
 		return "set obj.ttl = 1ms;"
+	case "extend":
+		return "set obj.ttl = 1h;"
 	case "ttl0":
 		return "set beresp.ttl = 0s;"
 	case "shortttl":
@@ -163,6 +165,8 @@ func lcProgram(b lcBehaviour, backend string, style func(k int) int) string {
 		}
 		if s == "recv" {
 			// shared state that outlives a request: the n-th request served sees n
+			// reading the one-second rate must not disturb what the counter holds for the wider windows
+			sb.WriteString("  if (req.restarts == 0) { log \"rate1:\" ratecounter.rc.rate.1s; }\n")
 			sb.WriteString("  if (req.restarts == 0) { set req.http.X-Count = ratelimit.ratecounter_increment(rc, \"k\", 1); log \"count:\" req.http.X-Count; }\n")
 			sb.WriteString("  if (req.restarts == 0) {\n    if (req.http.X-Look == \"1\") { if (ratelimit.penaltybox_has(pb, \"k\")) { log \"jail:1\"; } else { log \"jail:0\"; } }\n")
 			fmt.Fprintf(&sb, "    if (req.http.X-Jail == \"long\") { ratelimit.penaltybox_add(pb, \"k\", 10m); }\n    if (req.http.X-Jail == \"short\") { ratelimit.penaltybox_add(pb, \"k\", %dms); }\n  }\n", lcShortTTL*lcTickMs)
@@ -179,12 +183,12 @@ func lcProgram(b lcBehaviour, backend string, style func(k int) int) string {
 					k++
 					st := lcStmt(c.Beh)
 					cond := fmt.Sprintf("req.http.X-Req == \"%d\" && req.restarts == %d", n+1, c.At)
-					scoped := c.Beh == "expire" || c.Beh == "ttl0" || c.Beh == "uncacheable"
+					scoped := c.Beh == "expire" || c.Beh == "extend" || c.Beh == "ttl0" || c.Beh == "uncacheable"
 					switch style(k) {
 					case 1: // nested blocks
 						arm("  if (req.http.X-Req == \"%d\") { if (req.restarts == %d) { { %s } } else { log \"other\"; } }\n", n+1, c.At, st)
 					case 2: // through a called subroutine (not for the variants that write scope-specific variables)
-						if c.Beh == "expire" || c.Beh == "ttl0" || c.Beh == "uncacheable" {
+						if c.Beh == "expire" || c.Beh == "extend" || c.Beh == "ttl0" || c.Beh == "uncacheable" {
 							arm("  if (%s) { %s }\n", cond, st)
 						} else {
 							fmt.Fprintf(&helpers, "sub helper_%d { %s }\n", k, st)
